@@ -120,6 +120,7 @@ def worker(chunk):
             # a failing collaborator: Sem does not describe it, and C14 / C19 speak of collaborators that do not raise
             infrag, why = False, 'cb_raise'
         viol = {}
+        tr['model_agrees'] = not div
         want = item.get('monitors') or [m for m in monitors.ALL if m != 'C19strict']
         for pid in want:
             f = monitors.ALL.get(pid)
@@ -419,6 +420,7 @@ def replay(path):
     print('verdict:', tr['verdict'], 'result:', tr['results'])
     print('lock-step:', 'agrees' if not div else json.dumps(div)[:600])
     bad = bool(div)
+    tr['model_agrees'] = not div
     for pid, f in monitors.ALL.items():
         r = f(tr, sem if infrag else None)
         if r:
